@@ -226,7 +226,7 @@ def run_exhaustive(ctx):
         lens = lengths(name)
         for x in (0, 1):
             n = lens[x][x]
-            stride = 1 if ctx.tier == "thorough" else 4
+            stride = 1 if ctx.tier == "thorough" else 8
             for k in range(ctx.seed % stride, n, stride):
                 i += 1
                 if i % ctx.nshards != ctx.shard:
